@@ -164,6 +164,40 @@ pub fn run(env: &Env, run: &Run) -> (Stats, Coverage) {
             bound = "all 2^32 values".into();
         }
     }
+    // aliasing histories, single-threaded on purpose: classify x, then every value that differs
+    // from x in exactly one bit above the Unicode range, then x again. The answers for the
+    // out-of-range aliases must be "never valid" and the answer for x must not have moved.
+    {
+        let mut h = Stats::default();
+        let mut seqs = 0u64;
+        for x in (0u32..=0x10FFFF).filter(|x| run.tier == Tier::Thorough || x % 3 == run.seed as u32 % 3 || *x < 0x3000 || (0xF900..=0x10000).contains(x)) {
+            if char::from_u32(x).is_none() {
+                continue;
+            }
+            for class in [Class::Identifier, Class::Freeform] {
+                let before = dp_cp(class, x);
+                for bit in 21..32u32 {
+                    let alias = x | (1 << bit);
+                    let r = dp_cp(class, alias);
+                    h.evaluations += 1;
+                    if !matches!(r, Ok(DP::Disallowed) | Ok(DP::Unassigned)) {
+                        h.violation("history_alias", || Case::new("alias").n(x as u64).n(alias as u64), format!("{:#x} (queried right after {:#x}) is never valid", alias, x), show_dp(&r));
+                    }
+                }
+                let after = dp_cp(class, x);
+                h.evaluations += 2;
+                h.traces += 1;
+                seqs += 1;
+                if after != before {
+                    h.violation("history_alias", || Case::new("alias").n(x as u64).n(x as u64), format!("{:#x} classified as before ({})", x, show_dp(&before)), show_dp(&after));
+                }
+            }
+            h.states += 1;
+            h.transitions += 24;
+        }
+        h.add("alias_histories", seqs);
+        st.merge(h);
+    }
     for v in [0x0041u32, 0x00DF, 0x200C, 0x1100, 0x2163, 0xD800, 0x110000, u32::MAX] {
         st.sample(json!({"value": format!("{:#x}", v),
             "identifier": show_dp(&dp_cp(Class::Identifier, v)),
@@ -171,7 +205,7 @@ pub fn run(env: &Env, run: &Run) -> (Stats, Coverage) {
             "reference_identifier": format!("{:?}", derived_property(&env.u63, v, Class::Identifier))}));
     }
     let cov = Coverage {
-        rule: "state = one 32-bit value; both classes and both entry points are evaluated on it and compared with (a) the RFC 8264 s.8 decision list recomputed from the pinned raw 6.3.0 UCD files by an independent reader, (b) the IANA registry row read by the harness's own splitter; non-trivial = scalar values whose identifier value is not UNASSIGNED".into(),
+        rule: "state = one 32-bit value; both classes and both entry points are evaluated on it and compared with (a) the RFC 8264 s.8 decision list recomputed from the pinned raw 6.3.0 UCD files by an independent reader, (b) the IANA registry row read by the harness's own splitter; plus single-threaded aliasing histories x -> x|2^b (b=21..31) -> x for scalar values x (quick: a third of them rotating with the seed + all below U+3000 and U+F900..U+10000; thorough: all); non-trivial = scalar values whose identifier value is not UNASSIGNED".into(),
         alphabet: json!("u32"),
         bound_completed: bound,
         exhaustive,
@@ -186,6 +220,21 @@ pub fn run(env: &Env, run: &Run) -> (Stats, Coverage) {
 
 pub fn replay(env: &Env, case: &Case) -> Vec<Violation> {
     let mut st = Stats::default();
+    if case.op == "alias" && case.nums.len() == 2 {
+        let (x, alias) = (case.nums[0] as u32, case.nums[1] as u32);
+        for class in [Class::Identifier, Class::Freeform] {
+            let before = dp_cp(class, x);
+            let r = dp_cp(class, alias);
+            if alias != x && !matches!(r, Ok(DP::Disallowed) | Ok(DP::Unassigned)) {
+                st.violation("history_alias", || case.clone(), format!("{:#x} (queried right after {:#x}) is never valid", alias, x), show_dp(&r));
+            }
+            let after = dp_cp(class, x);
+            if alias == x && after != before {
+                st.violation("history_alias", || case.clone(), format!("{:#x} classified as before ({})", x, show_dp(&before)), show_dp(&after));
+            }
+        }
+        return st.violations;
+    }
     if let Some(v) = case.nums.first() {
         check_value(env, *v as u32, &mut st);
     }
